@@ -30,6 +30,10 @@ def run(shard, tier, seed):
     res = Result()
     n = 60 if tier == "quick" else 600
     nb = (6, 14) if tier == "quick" else (6, 30)
+    if shard["i"] % 4 == 3:
+        # long histories whose later candidates (honest and broken) sit on parents far below the head
+        return chainexec.drive(res, env.subseed(seed, ID, shard["i"]), n // 2, tier, FOCUS, CATS, ID, n_blocks=(18, 26 if tier == "quick" else 40), p_mut=0.5,
+                               p_fork=0.15, p_deep_fork=0.45, p_tx=0.8, p_restart=0.02)
     return chainexec.drive(res, env.subseed(seed, ID, shard["i"]), n, tier, FOCUS, CATS, ID, n_blocks=nb, p_mut=0.45,
                            p_copy=0.1, p_restart=0.08, p_fork=0.5)
 
